@@ -64,16 +64,17 @@ pub fn gen_frag_cfg(r: &mut Rng, o: &FragOpts) -> (FragCfg, Option<av1::SeqHdr>)
     };
     match vcodec {
         H264 => {
-            c.sps = Some(ps(r, 0x67, false));
+            c.sps = Some(if r.chance(1, 4) { let mut v = vec![0x67]; v.extend(crate::gen::frames::structured_sps_body(r, false, 12)); v } else { ps(r, 0x67, false) });
             c.pps = Some(ps(r, 0x68, false));
         }
         H265 => {
             c.vps = Some(ps(r, 0x40, true));
-            c.sps = Some(ps(r, 0x42, true));
+            c.sps = Some(if r.chance(1, 4) { let mut v = vec![0x42, 0x01]; v.extend(crate::gen::frames::structured_sps_body(r, true, 24)); v } else { ps(r, 0x42, true) });
             c.pps = Some(ps(r, 0x44, true));
         }
         AV1 => {
             let hdr = av1::gen_seq_hdr(r);
+            av1::set_leb_padding(if r.chance(1, 6) { r.range(1, 7) as usize } else { 0 });
             let mut bytes = Vec::new();
             // what an application hands over may hold more than the bare header OBU: a leading
             // temporal delimiter, trailing metadata OBUs (AV1-ISOBMFF allows those in configOBUs)
@@ -86,6 +87,7 @@ pub fn gen_frag_cfg(r: &mut Rng, o: &FragOpts) -> (FragCfg, Option<av1::SeqHdr>)
                 let n = r.range(1, 12) as usize;
                 bytes.extend_from_slice(&av1::obu(5, &r.bytes(n), true, None));
             }
+            av1::set_leb_padding(0);
             c.av1_seq = Some(bytes);
             side = Some(hdr);
         }
@@ -93,6 +95,10 @@ pub fn gen_frag_cfg(r: &mut Rng, o: &FragOpts) -> (FragCfg, Option<av1::SeqHdr>)
             let f = crate::model::vp9::gen_fields(r);
             c.vp9 = Some([f.width, f.height, f.profile as u32, f.bit_depth as u32, f.color_space as u32, f.transfer as u32, f.matrix as u32, r.below(62) as u32, f.full_range as u32]);
         }
+    }
+    if via_builder && r.chance(1, 4) {
+        // a track language given to the builder travels with the muxer (not with FragmentConfig)
+        c.lang = Some(crate::gen::hist::langs(r));
     }
     if via_builder && r.chance(1, 5) {
         // superfluous builder calls for OTHER codecs (a builder first prepared for another codec,
